@@ -302,6 +302,21 @@ func builtinMakeValidator(env *lisp.LEnv, args *lisp.LVal) *lisp.LVal {
 // finds the correct validation handler for the type
 func getHandler(env *lisp.LEnv, in *lisp.LVal, name string, constraints []*lisp.LVal) *lisp.LVal {
 	lType, _ := lisp.GoString(in)
+	// A value in a constraint slot that is not a constraint is refused here,
+	// when the schema is built, rather than on first use: applyConstraint
+	// would refuse it too, but only once something is validated.  (The
+	// tagged-value handler takes a type name as its first "constraint".)
+	for i, c := range constraints {
+		if c == nil || c.Type == lisp.LError || isValidator(c) {
+			continue
+		}
+		if lType == TaggedVal && i == 0 && c.Type == lisp.LString {
+			continue
+		}
+		return lisp.ErrorConditionf(BadArgs,
+			"Value is not a schema constraint: %v. Constraints must be built by the s package (s:int, s:has-key, s:gt, ...) or by libschema.NewValidator.",
+			c)
+	}
 	var res *lisp.LVal
 	switch lType {
 	case String:
